@@ -976,6 +976,54 @@ bool exec_str_b(Ctx &c, const Op &op) {
         } else obj_free(mem);
         return true;
     }
+    case V_ALGO: {
+        // what generic code does with a std::vector<ST::string>: the standard algorithms and the vector's own modifiers turn into chains of move
+        // constructions, move assignments, swaps and reads of moved-from elements that no hand-written sequence contains. The expected result is
+        // the same algorithm applied to the byte strings of the model. (No allocation fault here: the vector's own guarantees under a failed
+        // reallocation are the standard library's business.)
+        VecObj *vo = pick(c.vecs, op.a);
+        if (!vo || vo->st != M_DEFINITE || vo->model.empty() || vo->model.size() > 400) { c.skipped = true; return true; }
+        typedef std::vector<std::string> MV;
+        MV want = vo->model; const size_t n = want.size();
+        const unsigned form = op.b % 10; const size_t i = op.c % n, j = op.d % n;
+        static const char *const FN[] = {"reverse", "rotate", "sort", "unique", "erase_remove", "insert_self", "push_back_self", "swap_ranges", "erase", "stable_partition"};
+        note_sig(c, op, std::string(FN[form]) + ",n=" + cls_letter(n, 16));
+        size_t bytes = 0; for (auto &e : want) bytes += e.size() + 32;
+        c.budget_bytes = bytes * (form == 2 ? 24 : 6);
+        as_target(vo); note_mutating(c, vo);
+        auto pred = [](const std::string &e) { return (e.size() & 1) != 0; };
+        switch (form) {
+        case 0: std::reverse(want.begin(), want.end()); break;
+        case 1: std::rotate(want.begin(), want.begin() + (MV::difference_type)i, want.end()); break;
+        case 2: std::sort(want.begin(), want.end()); break;
+        case 3: want.erase(std::unique(want.begin(), want.end()), want.end()); break;
+        case 4: { std::string key = want[i]; want.erase(std::remove(want.begin(), want.end(), key), want.end()); break; }
+        case 5: { std::string e = want[j]; want.insert(want.begin() + (MV::difference_type)i, e); break; }
+        case 6: { std::string e = want[j]; want.push_back(e); break; }
+        case 7: std::swap_ranges(want.begin(), want.begin() + (MV::difference_type)(n / 2), want.begin() + (MV::difference_type)(n - n / 2)); break;
+        case 8: want.erase(want.begin() + (MV::difference_type)i); break;
+        default: std::stable_partition(want.begin(), want.end(), pred); break;
+        }
+        Op o2 = op; o2.fault &= ~F_ALLOC;
+        ExcKind ex = run_sut(c, o2, [&] {
+            std::vector<S> &v = *vo->p();
+            typedef std::vector<S>::difference_type D;
+            switch (form) {
+            case 0: std::reverse(v.begin(), v.end()); break;
+            case 1: std::rotate(v.begin(), v.begin() + (D)i, v.end()); break;
+            case 2: std::sort(v.begin(), v.end()); break;
+            case 3: v.erase(std::unique(v.begin(), v.end()), v.end()); break;
+            case 4: { S key = v[i]; v.erase(std::remove(v.begin(), v.end(), key), v.end()); break; }
+            case 5: v.insert(v.begin() + (D)i, v[j]); break;            // (the argument refers to an element of the vector itself: allowed)
+            case 6: v.push_back(v[j]); break;                            // (likewise, across a reallocation)
+            case 7: std::swap_ranges(v.begin(), v.begin() + (D)(n / 2), v.begin() + (D)(n - n / 2)); break;
+            case 8: v.erase(v.begin() + (D)i); break;
+            default: std::stable_partition(v.begin(), v.end(), [](const S &e) { return (e.size() & 1) != 0; }); break;
+            }
+        });
+        if (settle(c, o2, ex, 0)) { vo->model = want; vo->elem_ptr.assign(want.size(), nullptr); vo->st = M_DEFINITE; }
+        return true;
+    }
     case V_DESTROY: {
         VecObj *vo = pick(c.vecs, op.a);
         if (!vo) { c.skipped = true; return true; }
